@@ -3,6 +3,7 @@ mod catalogue;
 mod gen_enc;
 mod gen_geom;
 mod gen_rs;
+mod gen_sym;
 mod strings;
 mod util;
 
@@ -63,6 +64,16 @@ fn main() {
             let mut out = Out::create(&out_path, start > 0);
             for (i, c) in gen_geom::shape_cases(&tier, seed).iter().enumerate().skip(start) {
                 out.put(&gen_geom::shape_case(i + 1, c, seed));
+            }
+            out.flush();
+        }
+        ("gen", "sym") => {
+            let mut out = Out::create(&out_path, start > 0);
+            if start == 0 {
+                out.put(&gen_sym::attr_case(1));
+            }
+            for (i, c) in gen_sym::op_cases(&tier, seed).iter().enumerate().skip(start.saturating_sub(1)) {
+                out.put(&gen_sym::op_case(i + 2, c));
             }
             out.flush();
         }
